@@ -208,6 +208,9 @@ def st_world(draw, prof: Optional[Dict[str, Any]] = None) -> Dict[str, Any]:
         # affordable with steps >= 60 s
         "charging_search_type": draw(st.sampled_from(["nearest_shortest_queue"] * 3 + (["shortest_time_to_charge"] if dt >= 60 else []))),
         "idle_time_out_seconds": draw(st.sampled_from([1800, 120, 600])),
+        # 0.8 (default): drivers end fast charging by an Idle instruction; 1.0: sessions run until the battery is full and end by
+        # the default transition *during* the vehicle-update pass (a different code path for freed plugs)
+        "ideal_fastcharge_soc_limit": draw(st.sampled_from(p.get("soc_limits", [0.8, 1.0]))),
         # ring search cost grows with (radius / search-cell size)^3 when nothing is found: keep it small
         "max_search_radius_km": draw(st.sampled_from([5.0, 10.0])),
         "valid_dispatch_states": draw(st.sampled_from([["idle", "repositioning"], ["idle", "repositioning", "dispatchbase", "reservebase"], ["idle"]])),
